@@ -194,6 +194,8 @@ theorem applyRes_waitInv (cfg : Cfg) (pol : Policy) (step : Nat) (tickEv : Ev) (
     simp only [applyRes]
     split
     · exact ⟨hst, hex⟩
+    split
+    · exact ⟨hst, hex⟩
     all_goals
       split
       · split
